@@ -340,6 +340,7 @@ func TestGradient(t *testing.T) {
 // Deterministic table: every spread at every integer offset -6..6 and just
 // beside it, linear, two stops 0 -> 1 from red to blue.
 func TestSpreadTable(t *testing.T) {
+	harness.OnlyFirstShard(t)
 	st := harness.Counter("spread-table", "4 spreads x offsets k/4 for k in -24..28 (all integers -6..7 exactly), linear and radial, stops red@0 -> blue@1 and green@0.25 -> transparent@0.75")
 	n := int64(0)
 	for _, stops := range [][]Stop{{{0, "ff0000ff"}, {1, "0000ffff"}}, {{0.25, "00ff00ff"}, {0.75, "00000000"}}} {
